@@ -685,6 +685,54 @@ func ruleParserTables(c *Check, w *World, tb *TB, rule string) {
 			c.Bad(rule, "otp.parser", "token:"+k, "the parser has no case mapping "+k+" (token unsupported or mapped indirectly)", "")
 		}
 	}
+	// the data-input part is split into all its tokens: strings.Split(x, "-") ranged over (a bounded SplitN drops or
+	// glues the tokens beyond its limit)
+	nSplit := 0
+	for f := range reach {
+		if fnPkgPath(f) != OtpPath {
+			continue
+		}
+		EachInstr(f, func(in ssa.Instruction) {
+			cl, ok := in.(*ssa.Call)
+			if !ok {
+				return
+			}
+			n := CalleeName(cl.Common())
+			if n != "strings.Split" && n != "strings.SplitN" && n != "strings.SplitAfter" && n != "strings.SplitAfterN" && n != "strings.Fields" {
+				return
+			}
+			t := tb.Of(cl)
+			sep := ""
+			if len(t.Args) >= 2 && t.Args[1].IsConst() {
+				sep, _ = unquote(t.Args[1].Sym)
+			}
+			if sep != "-" {
+				return
+			}
+			// only the token list that is ranged over (each element handled alike), not a fixed-arity split
+			ranged := false
+			if refs := cl.Referrers(); refs != nil {
+				for _, r := range *refs {
+					if c2, isCall := r.(*ssa.Call); isCall {
+						if b, isB := c2.Call.Value.(*ssa.Builtin); isB && b.Name() == "len" {
+							// the loop bound of a range over the slice
+							if InLoopBoundOf(c2) {
+								ranged = true
+							}
+						}
+					}
+				}
+			}
+			if !ranged {
+				return
+			}
+			nSplit++
+			c.Decide(n == "strings.Split", rule, FuncName(f), "token-split", "the data-input tokens are all of strings.Split(x, \"-\")", "the data-input tokens are split with "+clip(t.String(), 140)+": tokens beyond the limit are dropped or glued together, so a well-formed string is accepted with a configuration that lacks them", w.InstrPos(in))
+		})
+	}
+	if nSplit == 0 {
+		c.Unk(rule, "otp.parser", "token-split", "no ranged split of the data-input tokens found on the path from NewRawSuite", "")
+	}
 	// the digit count is the parsed number itself: no remapping of values the configuration cannot represent
 	nDig := 0
 	for f := range reach {
@@ -781,6 +829,20 @@ func ruleParserTables(c *Check, w *World, tb *TB, rule string) {
 		okM := m == "bin(*; const(60); "+s+")" || m == "bin(*; "+s+"; const(60))"
 		okH := h == "bin(*; const(3600); "+s+")" || h == "bin(*; "+s+"; const(3600))"
 		okS := strings.HasPrefix(s, "extract(0; call(strconv.Atoi") || strings.HasPrefix(s, "extract(0; call(strconv.Parse")
+		// the number is the whole spec but its last character (the unit): Atoi(g[:len(g)-1]) of the function's text
+		if okS && len(f.Params) == 1 {
+			g := tb.Of(f.Params[0]).String()
+			wantNum := "slice(" + g + "; none; bin(-; len(" + g + "); const(1)); none)"
+			numOK := false
+			EachInstr(f, func(in ssa.Instruction) {
+				if cl, ok := in.(*ssa.Call); ok && strings.HasPrefix(CalleeName(cl.Common()), "strconv.") && len(cl.Call.Args) >= 1 {
+					if tb.Of(cl.Call.Args[0]).String() == wantNum {
+						numOK = true
+					}
+				}
+			})
+			c.Decide(numOK, rule, FuncName(f), "time-number", "the number parsed is the whole granularity text without its unit character", "the number handed to the integer parser is not text[:len(text)-1]: multi-digit time steps are cut short or include the unit", w.Pos(f.Pos()))
+		}
 		unitOK = true
 		c.Decide(okS && okM && okH && len(units) == 3, rule, FuncName(f), "time-units", "S/M/H scale the parsed number by 1/60/3600 in plain int arithmetic", fmt.Sprintf("time unit table is S→%s, M→%s, H→%s (%d units): not number×1/60/3600", s, m, h, len(units)), w.Pos(f.Pos()))
 		// narrowing conversions on the way would wrap
@@ -910,4 +972,26 @@ func init() {
 			c.Floor("R15.3", 10)
 		},
 	})
+}
+
+// InLoopBoundOf: the len(...) call is compared with an induction variable in a loop head (range over a slice).
+func InLoopBoundOf(lenCall *ssa.Call) bool {
+	refs := lenCall.Referrers()
+	if refs == nil {
+		return false
+	}
+	for _, r := range *refs {
+		bo, ok := r.(*ssa.BinOp)
+		if !ok {
+			continue
+		}
+		if rr := bo.Referrers(); rr != nil {
+			for _, u := range *rr {
+				if iff, isIf := u.(*ssa.If); isIf && InLoop(iff.Block()) {
+					return true
+				}
+			}
+		}
+	}
+	return false
 }
